@@ -215,6 +215,7 @@ def auto_shapes():
     if _AUTO_SHAPES is None:
         vocab = {}
         hosts = []
+        minimal_hosts = []
         for path in corpus.class_paths():
             module = path.rsplit('.', 1)[0]
             for raw in corpus.accepted(path)[:6]:
@@ -229,25 +230,89 @@ def auto_shapes():
                                 vocab[(module, sep)].append(part)
                     if len(parts) >= 2:
                         hosts.append((path, module, raw, sep))
+            # ... and the shortest accepted text seed of the class as a host for every separator: what follows the
+            # repeated items then contains nothing that could terminate them
+            texts = [raw for raw in corpus.accepted(path)[:6] if wirefault.is_text(raw) and 2 <= len(raw) <= 400]
+            if texts:
+                shortest = min(texts, key=len)
+                for sep in AUTO_SEPARATORS:
+                    minimal_hosts.append((path, module, shortest, sep))
         shapes = []
         seen_hosts = set()
         for path, module, raw, sep in hosts:
             if (path, sep) in seen_hosts:
                 continue            # one host per (class, separator): the first (usually richest) seed
             seen_hosts.add((path, sep))
-            for item in vocab.get((module, sep), [])[:60] + list(SYNTHETIC_ITEMS.get(sep, ())):
+            items = vocab.get((module, sep), [])[:60]
+            # the same items left unterminated (closing brace / quote / bracket removed)
+            unterminated = []
+            for item in items:
+                for closer in (b'}', b'"', b"'", b')', b']', b'>'):
+                    at = item.rfind(closer)
+                    if at > 0:
+                        for variant in (item[:at] + item[at + 1:], item.replace(closer, b'')):
+                            if variant and variant not in items + unterminated:
+                                unterminated.append(variant)
+                        break
+            for item in items + unterminated[:16] + list(SYNTHETIC_ITEMS.get(sep, ())):
                 shapes.append((path, raw.hex(), sep.hex(), 0, item.hex()))
+            own_parts = len([part for part in raw.split(sep) if part])
+            for item in items[:3]:
+                for which in range(min(3, own_parts)):
+                    shapes.append((path, raw.hex(), sep.hex(), 0, item.hex(), 'mixed:%d' % which))
                 if sep == b'\r\n':
                     # the same lines ended by a bare LF / CR, as a sloppy or hostile peer sends them
                     shapes.append((path, raw.replace(b'\r\n', b'\n').hex(), b'\n'.hex(), 0, item.hex()))
                     shapes.append((path, raw.replace(b'\r\n', b'\r').hex(), b'\r'.hex(), 0, item.hex()))
+        for path, module, raw, sep in minimal_hosts:
+            if (path, sep) not in seen_hosts or not any(h[0] == path and h[3] == sep and h[2] == raw for h in hosts):
+                items = vocab.get((module, sep), [])
+                extra = []
+                for item in items:
+                    for closer in (b'}', b'"', b"'", b')', b']', b'>'):
+                        if closer in item and item.replace(closer, b'') and item.replace(closer, b'') not in items + extra:
+                            extra.append(item.replace(closer, b''))
+                            break
+                for item in extra[:5]:
+                    shapes.append((path, raw.hex(), sep.hex(), len(raw.split(sep)) - 1, item.hex()))
         _AUTO_SHAPES = shapes
     return _AUTO_SHAPES
 
 
-def build_auto(raw, sep, idx, count, item=None):
+def _respell(text, number):
+    """Another letter-case spelling of `text`, chosen by the bits of `number` (distinct for distinct numbers as long
+    as the text has enough letters)."""
+    out = bytearray(text)
+    bit = 0
+    for pos, byte in enumerate(out):
+        if 0x41 <= byte <= 0x5a or 0x61 <= byte <= 0x7a:
+            if (number >> bit) & 1:
+                out[pos] = byte ^ 0x20
+            bit += 1
+    return bytes(out)
+
+
+def _numbered(text, number):
+    """`text` with a counter spliced into its name part (before the first = : or at the end): distinct items."""
+    for pos, byte in enumerate(text):
+        if byte in b'=:' and pos:
+            return text[:pos] + str(number).encode() + text[pos:]
+    return text + str(number).encode()
+
+
+def build_auto(raw, sep, idx, count, item=None, mode='same'):
     parts = raw.split(sep)
-    return sep.join(parts[:idx + 1] + [parts[idx] if item is None else item] * count + parts[idx + 1:])
+    item = parts[idx] if item is None else item
+    if mode == 'same':
+        extra = [item] * count
+    else:
+        # pairwise different items: numbered copies of the item, followed by as many other letter-case spellings of
+        # one of the host's own parts (names are matched case-insensitively, values are not)
+        own = [part for part in parts if part] or [item]
+        which = own[int(mode.split(':')[1]) % len(own)] if ':' in mode else own[-1]
+        extra = [_numbered(item, number) for number in range(count // 2)]
+        extra += [_respell(which, number + 1) for number in range(count - count // 2)]
+    return sep.join(parts[:idx + 1] + extra + parts[idx + 1:])
 
 
 _LP_SHAPES = None
@@ -405,6 +470,7 @@ def sweep_seeds():
 
 
 def prepare(tier):  # pylint: disable=unused-argument
+    corpus.warm_variants()
     workload.pools()
     stepclock.clock().install()
     auto_shapes()
@@ -435,9 +501,10 @@ def _generate(rng, index, tier, extra):
     if phase == 'autoscale':
         shapes = auto_shapes()
         pick = index
-        path, raw_hex, sep_hex, idx, item_hex = shapes[pick % len(shapes)]
+        shape = shapes[pick % len(shapes)]
+        path, raw_hex, sep_hex, idx, item_hex = shape[:5]
         return {'kind': 'autoscale', 'cls': path, 'hex': raw_hex, 'sep': sep_hex, 'at': idx, 'item': item_hex,
-                'engaged_only': tier == 'quick'}
+                'mode': shape[5] if len(shape) > 5 else 'same', 'engaged_only': tier == 'quick'}
     if phase == 'lp':
         shapes = lp_shapes()
         path, raw_hex, at, size = shapes[(index // len(LP_ITEMS)) % len(shapes)]
@@ -472,7 +539,7 @@ def _generate(rng, index, tier, extra):
             faults.append({'k': 'insert', 'at': at, 'hex': (raw[at:at + size] or b'\x00').hex() * rng.choice((16, 64, 256, 1024))})
         return {'kind': 'dgram', 'cls': path, 'hex': raw.hex(), 'faults': faults,
                 'entry': rng.choice(oracles.ENTRY_POINTS)}
-    channel = rng.choice(workload.CHANNELS)
+    channel = rng.choice(workload.STREAM_CHANNELS)
     discards = []
     records = [channel.make(rng, discards) for _ in range(rng.choice((1, 2, 3)))]
     stream = b''.join(records)
@@ -648,7 +715,11 @@ def _exec_autoscale(doc, res):
     quick = bool(doc.get('engaged_only'))
     base = max(4, (400 if quick else 700) // item_len)
     scales = SCALES[:4] if quick else SCALES
-    probe = build_auto(raw, sep, idx, base, item)
+    if doc.get('mode', 'same') != 'same':
+        # a weak quadratic term (one cheap scan per distinct item) only outgrows the linear work at a few hundred items
+        base, scales = max(4, 700 // item_len), SCALES
+    mode = doc.get('mode', 'same')
+    probe = build_auto(raw, sep, idx, base, item, mode)
     _measure(cls, 'parse_immutable', probe)
     if doc.get('engaged_only'):
         # quick tier: only shapes in which the parser really works through the repeated items (accepted and at
@@ -663,17 +734,17 @@ def _exec_autoscale(doc, res):
             return
     series = []
     for scale in scales:
-        data = build_auto(raw, sep, idx, base * scale, item)
+        data = build_auto(raw, sep, idx, base * scale, item, mode)
         steps, depth, status = _measure(cls, 'parse_immutable', data)
         series.append((len(data), steps, depth, status))
         _judge(res, cls.__name__, 'parse_immutable', len(data), steps, depth, status)
         res.sim_events += 1
     tail = _series_verdict(res, 'item %r repeated inside %r' % (item[:30], raw[:40]), cls, series,
-                           (cls.__name__, 'repeat-item', item[:16].decode('ascii', 'replace')))
+                           (cls.__name__, 'repeat-item' if mode == 'same' else 'distinct-items', item[:16].decode('ascii', 'replace')))
     res.note('autoscale', cls.__name__, [s[3] for s in series])
     res.stats['runs.autoscale'] += 1
     res.stats['scale.accepted_inputs' if any(s[3] == 'ok' for s in series) else 'scale.rejected_inputs'] += 1
-    res.sched_sig = ('autoscale', cls.__name__, doc['sep'], doc['item'][:24], tuple(s[3] for s in series))
+    res.sched_sig = ('autoscale', cls.__name__, doc['sep'], doc['item'][:24], mode, tuple(s[3] for s in series))
     res.nontrivial = True
     res.stats['scale.max_exponent_x100_bucket_%d' % int(max(tail or [0]) * 10)] += 1
 
